@@ -73,7 +73,7 @@ def destabilizers_for(t, rng=None):
     return D[:, :n], D[:, n:]
 
 
-def ptab_to_clifford(t, rng=None, random_destab_phase=False):
+def ptab_to_clifford(t, rng=None, random_destab_phase=False, return_arrays=False):
     """full CliffordTableau (with valid destabilizers) whose stabilizer half is exactly the PTab rows"""
     from graphiq.backends.stabilizer.clifford_tableau import CliffordTableau
     n = t.n
@@ -85,6 +85,9 @@ def ptab_to_clifford(t, rng=None, random_destab_phase=False):
     phase[n:] = r
     if random_destab_phase and rng is not None:
         phase[:n] = rng.integers(0, 2, n)
+    if return_arrays:
+        # the caller keeps the very arrays the tableau was built from (int64, as a user's stored starting point)
+        return CliffordTableau(table, phase), table, phase
     return CliffordTableau(table, phase)
 
 
